@@ -21,9 +21,17 @@ import SarpyModel.Drivers.Segment
 import SarpyModel.Drivers.FieldFmt2
 import SarpyModel.Drivers.XsdFmt
 import SarpyModel.Drivers.Kernels2
+import SarpyModel.Drivers.Loops
+import SarpyModel.Drivers.LoopsChip
+import SarpyModel.Drivers.LoopsSidd
+import SarpyModel.Drivers.NitfAssembly
+import SarpyModel.Drivers.LifeGen
+import SarpyModel.Drivers.CheckerRules
+import SarpyModel.Drivers.CheckerGen
 import SarpyModel.Drivers.Tre
 import SarpyModel.Drivers.Dispatch
 import SarpyModel.Drivers.DispatchGen
+import SarpyModel.Drivers.NitfDtype
 namespace Sarpy.Drivers
 
 def step (line : String) : String :=
@@ -52,9 +60,17 @@ def step (line : String) : String :=
   | "fmt2" :: rest => (fmt2Step rest).getD "bad-op"
   | "xsd" :: rest => (xsdStep rest).getD "bad-op"
   | "k2" :: rest => (k2Step rest).getD "bad-op"
+  | "loops" :: rest => (loopsStep rest).getD "bad-op"
+  | "loopsc" :: rest => (loopscStep rest).getD "bad-op"
+  | "loopss" :: rest => (loopssStep rest).getD "bad-op"
+  | "nitfasm" :: rest => (nitfasmStep rest).getD "bad-op"
+  | "lifegen" :: rest => (lifeGenStep rest).getD "bad-op"
+  | "chkspec" :: rest => (chkspecStep rest).getD "bad-op"
+  | "chkgen" :: rest => (chkgenStep rest).getD "bad-op"
   | "tre" :: rest => (treStep rest).getD "bad-op"
   | "disp" :: rest => (dispStep rest).getD "bad-op"
   | "dispgen" :: rest => (dispgenStep rest).getD "bad-op"
+  | "nitfdtype" :: rest => (nitfdtypeStep rest).getD "bad-op"
   | _ => "bad-op"
 
 partial def loop (h : IO.FS.Stream) : IO Unit := do
